@@ -156,6 +156,130 @@ def oracle(R, findings):
                 findings.append(("eat-close|%s|%s" % (c["ptype"], prv), "eat_blanks_before_close_brace: %d line breaks before '}' (parent %s, previous %s)" % (fin[i - 1]["nl_count"], c["ptype"], prv)))
 
 
+# Constructs that a blank-line COUNT option governs (nl_after_struct, nl_after_class, nl_after_func_body, nl_var_def_blk_*, ...)
+# placed directly next to an opening or closing brace: eat_blanks_* must win there whatever the count options say (round-4 seed:
+# the nl_inside_empty_func exception of can_increase_nl() applied to non-empty bodies).
+BRACE_ADJ_CPP = b"""void empty()
+{
+}
+
+int f1(int x)
+{
+   struct S
+   {
+      int a;
+   };
+}
+
+int f2(int x)
+{
+   class K
+   {
+public:
+      int a;
+      void m() { }
+   };
+}
+
+int f3(int x)
+{
+   enum E { A, B };
+}
+
+int f4(int x)
+{
+   union U { int a; char b; };
+   return x;
+}
+
+namespace N
+{
+struct T
+{
+   int a;
+   int g() { return 1; }
+};
+class V
+{
+public:
+   V();
+   ~V();
+private:
+   int v;
+};
+}
+
+int f5(int x)
+{
+   int y = x;
+   int z = y;
+   if (x)
+   {
+      typedef int I;
+   }
+   switch (x)
+   {
+   case 1:
+   {
+      struct Q { int q; };
+   }
+   }
+}
+"""
+BRACE_ADJ_C = b"""void empty(void)
+{
+}
+
+int f1(int x)
+{
+   struct S
+   {
+      int a;
+   };
+}
+
+int f4(int x)
+{
+   int y = x;
+   typedef int I;
+}
+
+struct T
+{
+   int a;
+   struct I { int b; } i;
+};
+
+int f5(int x)
+{
+   if (x)
+   {
+      int y = x;
+   }
+}
+"""
+
+
+def brace_adjacent_cases():
+    from . import lex_common as lx
+    counts = [o["name"] for o in lx.ws_options() if o["type"] == "unsigned" and o["name"].startswith("nl_")
+              and o["name"] not in ("nl_max", "nl_max_blank_in_func", "nl_start_of_file_min", "nl_end_of_file_min")
+              and not o["name"].endswith("_thresh") and "one_liner" not in o["name"]]
+    out = []
+    eat = "nl_max=3\neat_blanks_after_open_brace=true\neat_blanks_before_close_brace=true\n"
+    for lang, data in (("CPP", BRACE_ADJ_CPP), ("C", BRACE_ADJ_C)):
+        for nie in (0, 1):
+            base = eat + "nl_inside_empty_func=%d\n" % nie
+            for v in (2, 3):
+                allc = "".join("%s=%d\n" % (n, v) for n in counts if n != "nl_inside_empty_func")
+                out.append(rc.Case("brace-adj:%s:all=%d:nie%d" % (lang, v, nie), lang, base + allc, data))
+            for n in counts:
+                if n == "nl_inside_empty_func":
+                    continue
+                out.append(rc.Case("brace-adj:%s:%s:nie%d" % (lang, n, nie), lang, base + "%s=2\n" % n, data))
+    return out
+
+
 def run(rep, build, tier, seed):
     r = common.rng(seed, "C20")
     rep.cov["rule"] = ("generated block-structured C programs with 0..6 blank lines injected at random line boundaries x nl_max 0..6 x nl_start/end_of_file at all "
@@ -185,6 +309,7 @@ def run(rep, build, tier, seed):
                     for pre in (b"", b"\n\n\n"):
                         cfg = "nl_start_of_file=%s\nnl_start_of_file_min=%d\nnl_end_of_file=%s\nnl_end_of_file_min=%d\nnl_max=3\n" % (sv, smn, ev, emn)
                         cases.append(rc.Case("edges:%s:%d:%s:%d:pre%d" % (sv, smn, ev, emn, len(pre)), "C", cfg, pre + core))
+    cases += brace_adjacent_cases()
     corr = rc.explore(rep, cases, oracle, tier, "render", extra=ask_nlmax)
     rep.sample({"generated_config_example": cases[0].cfg_text, "input_head": cases[0].data[:160].decode("latin1")})
     return rc.finish(rep, build, "C20", corr, "correspondence Model/Render.v <-> output.cpp (emitted code points)",
